@@ -35,8 +35,9 @@ CLAIMS = {
             'theorems (C09b); time/frequency-domain solution classes regenerated and proved equal to the model (C09c)'),
     'C10': ('full: executable model of state_space_matrices and all output rows; ss_augmented; for every s the outputs of C(sI-A)^-1B+D solve the phasor '
             'network and equal the solver\'s answer (uniqueness); DC gain; dimensions; source order; state_space_model.py regenerated and proved equal to the model (C10c)'),
-    'C11': ('full for the inequality x^T(WA+A^TW)x <= 0 and Re(lambda) <= 0 over an ordered field; the simulated-energy clause depends on '
-            'scipy.signal.lsim and is exercised, not modelled'),
+    'C11': ('full for the inequality x^T(WA+A^TW)x <= 0 and Re(lambda) <= 0 over an ordered field; stored energy non-increasing and states bounded '
+            'along every exact unforced (or DC-driven) trajectory over the reals (C11d, Coquelicot; classical-reals axioms); that scipy.signal.lsim '
+            'follows such a trajectory is exercised, not modelled'),
     'C12': ('partial: KCL, element laws, i_C = C dv/dt, v_L = L di/dt for EVERY state/input pair (hence every sample whatever the integrator), rest, '
             'input order; the integrator lsim is a Section variable (compared against an independent integrator by the harness)'),
     'C13': ('partial: executable model of the wire closure, representatives, labelling (auto-numbering with the skip loop), ground and the per-class '
